@@ -279,7 +279,7 @@ func TestVerifC07(t *testing.T) {
 			from, _ = strconv.Atoi(string(b))
 			restarts--
 
-			if stats.M["child_handovers"]++; stats.M["child_handovers"] > 60 {
+			if stats.Inc("child_handovers"); stats.Get("child_handovers") > 60 {
 				return
 			}
 
